@@ -103,6 +103,13 @@ func c01Register(w *World, r Registrar) {
 		}
 		return mcp.NewTextResult(c01Answer(nonce, int(size))), nil
 	})
+	r.RegisterPrompt(&mcp.Prompt{Name: "echo", Arguments: []mcp.PromptArgument{{Name: "nonce"}, {Name: "size"}}}, func(ctx context.Context, req *mcp.GetPromptRequest) (*mcp.GetPromptResult, error) {
+		nonce := req.Params.Arguments["nonce"]
+		size := 0
+		fmt.Sscanf(req.Params.Arguments["size"], "%d", &size)
+		w.count("echo:" + nonce)
+		return &mcp.GetPromptResult{Messages: []mcp.PromptMessage{{Role: mcp.RoleUser, Content: mcp.NewTextContent(c01Answer(nonce, size))}}}, nil
+	})
 	r.RegisterTool(mcp.NewTool("__counts"), func(ctx context.Context, req *mcp.CallToolRequest) (*mcp.CallToolResult, error) {
 		w.callMu.Lock()
 		b, _ := json.Marshal(w.Calls)
@@ -169,6 +176,24 @@ func execC01Lib(c C01Case) *Failure {
 					defer wg.Done()
 					ctx, cancel := context.WithTimeout(context.Background(), 15*time.Second)
 					defer cancel()
+					if !fail && len(nonce)%3 == 0 {
+						// the same property through prompts/get
+						preq := &mcp.GetPromptRequest{}
+						preq.Params.Name = "echo"
+						preq.Params.Arguments = map[string]string{"nonce": nonce, "size": fmt.Sprint(size)}
+						pres, err := lc.C.GetPrompt(ctx, preq)
+						r := result{nonce: nonce, size: size, err: err}
+						if err == nil && len(pres.Messages) == 1 {
+							r.n = 1
+							if tc, ok := pres.Messages[0].Content.(mcp.TextContent); ok {
+								r.text = tc.Text
+							}
+						}
+						mu.Lock()
+						results = append(results, r)
+						mu.Unlock()
+						return
+					}
 					req := &mcp.CallToolRequest{}
 					req.Params.Name = "echo"
 					req.Params.Arguments = map[string]interface{}{"nonce": nonce, "size": size, "lat": lat, "fail": fail}
